@@ -112,6 +112,21 @@ def gen_usage_hazard_case(cid, rnd, reps=8):
     return {"id": cid, "base": [{"op": "analyze", "path": files[0], "text": users}], "threads": threads, "tags": ["usage-hazard"]}
 
 
+def gen_interleave_case(cid, rnd, reps=4):
+    """several files that each request the SAME fixture many times, analysed concurrently and then re-analysed: the
+    pushes of different files into one per-name vector interleave ([A, B, A, B, ...]), and a clean-up that assumes
+    its own entries are contiguous removes the entries of the other files (seed S85)"""
+    root = "/vi%d" % (cid % 3)
+    nuse = rnd.choice([6, 10])
+    files = [root + "/mod_%d/test_i%d.py" % (k, k) for k in range(rnd.choice([3, 4]))]
+
+    def text(k, i):
+        return "".join("def test_%d_%d(shared_db):\n    pass\n\n" % (k, j) for j in range(nuse)) + "\n" * i
+    threads = [[{"op": "analyze", "path": p, "text": text(k, i)} for i in range(reps)] for k, p in enumerate(files)]
+    base = [{"op": "analyze", "path": root + "/conftest.py", "text": "import pytest\n\n@pytest.fixture\ndef shared_db():\n    return 1\n"}]
+    return {"id": cid, "base": base, "threads": threads, "tags": ["interleaved-usages"]}
+
+
 def gen_fresh_names_case(cid, rnd, reps=8):
     """several files that all define the SAME names and all switch, round after round, between
     two disjoint sets of names: in every round the new set is absent from the per-name maps and
@@ -231,6 +246,7 @@ def run(r):
         cases += [gen_hazard_case(1000 + i, rnd) for i in range(12 if quick else 100)]
         cases += [gen_fresh_names_case(2000 + i, rnd) for i in range(8 if quick else 60)]
         cases += [gen_usage_hazard_case(3000 + i, rnd) for i in range(6 if quick else 40)]
+        cases += [gen_interleave_case(4000 + i, rnd) for i in range(6 if quick else 40)]
         seeds = [r.seed * 100 + k for k in range(6 if quick else 30)]
         results = run_conc(h4, cases, seeds, tmp)
     finally:
